@@ -2,6 +2,7 @@ package main
 
 import (
 	"fmt"
+	"regexp"
 	"strings"
 )
 
@@ -17,7 +18,7 @@ func (g *fgen) runPattern(p *rprogram) string {
 	t := top()
 	sub := ""
 	if len(t.subs) > 0 {
-		sub = t.subs[g.r.Intn(len(t.subs))].name
+		sub = regexp.QuoteMeta(t.subs[g.r.Intn(len(t.subs))].name)
 	}
 	any := topTests[g.r.Intn(len(topTests))]
 	switch g.r.Intn(14) {
@@ -69,6 +70,7 @@ func (g *fgen) runPattern(p *rprogram) string {
 
 func genSkipRun(g *fgen, n int, modes []string, skipProb, runProb float64) []*Scenario {
 	var out []*Scenario
+	var standaloneRoot *rnode
 	for i := 0; i < n; i++ {
 		cfgs := []string{"", "", "", "fn"}
 		p := g.rprogram([]string{"snapshot", "snapshot", "json", "yaml", "ssnap", "sjson"}, cfgs, 4, 3)
@@ -84,6 +86,26 @@ func genSkipRun(g *fgen, n int, modes []string, skipProb, runProb float64) []*Sc
 		}
 		for _, r := range p.roots {
 			fill(r)
+		}
+		if g.chance(0.35) {
+			// one subtree that records standalone files only: selecting just this subtree leaves the
+			// multi-entry file of the other tests unaddressed (file-level protection must hold)
+			var alone func(n *rnode)
+			alone = func(n *rnode) {
+				for i := range n.calls {
+					n.calls[i] = g.call([]string{"ssnap", "sjson"}, []string{""})
+				}
+				for _, s := range n.subs {
+					alone(s)
+				}
+			}
+			alone(p.roots[0])
+			if len(p.roots[0].subs) == 0 {
+				p.roots[0].subs = append(p.roots[0].subs, &rnode{name: "smoke", calls: []*callSpec{g.call([]string{"ssnap"}, []string{""})}})
+			}
+			standaloneRoot = p.roots[0]
+		} else {
+			standaloneRoot = nil
 		}
 		sc := &Scenario{ID: g.id(), Configs: stdConfigs(), DefaultLoc: true}
 		if g.chance(0.5) {
@@ -103,6 +125,14 @@ func genSkipRun(g *fgen, n int, modes []string, skipProb, runProb float64) []*Sc
 		spec := procSpec(modes[g.r.Intn(len(modes))])
 		if g.chance(runProb) {
 			spec.Run = g.runPattern(q)
+			if standaloneRoot != nil && g.chance(0.7) {
+				r0 := q.roots[0]
+				sub := ".*"
+				if len(r0.subs) > 0 && g.chance(0.6) {
+					sub = regexp.QuoteMeta(r0.subs[0].name)
+				}
+				spec.Run = g.pick("^"+r0.name+"$/"+sub, r0.name+"$/"+sub, "^"+r0.name+"$")
+			}
 		}
 		if g.chance(0.2) {
 			spec.Count = 2
